@@ -28,10 +28,26 @@ def load_prop(pid):
     return importlib.import_module("props." + pid.lower())
 
 
+def extract_tables(tables):
+    """regenerate the tables in a process of their own: the process that runs the cases has then asked the library
+    nothing yet (no class-level memo or cache is warm when the first case starts)"""
+    import ast
+    import subprocess
+    if not tables:
+        return []
+    p = subprocess.run([sys.executable, os.path.join(os.path.dirname(os.path.abspath(__file__)), "extract.py")] + list(tables),
+                       stdout=subprocess.PIPE, stderr=subprocess.PIPE, text=True, env=dict(os.environ))
+    if p.returncode != 0:
+        raise Infra("table extraction failed:\n" + (p.stderr or p.stdout)[-3000:])
+    for ln in reversed(p.stdout.splitlines()):
+        if ln.startswith("changed:"):
+            return list(ast.literal_eval(ln[len("changed:"):].strip()))
+    return []
+
+
 def stage_build(prop, ctx):
-    import extract
     with core.Lock("build.lock"):
-        changed = extract.main(getattr(prop, "TABLES", []))
+        changed = extract_tables(getattr(prop, "TABLES", []))
         targets = ["moclo-driver"] + list(prop.LAKE_TARGETS)
         ok, out, failed = core.lake_build(targets)
         if not ok:
